@@ -301,7 +301,9 @@ def all_configs():
             for on in (True, False):
                 for same in (False, True):
                     out.append((maxl, N, on, same, (maxl + N // 2) % 2 == 0))
-    return out
+    # symbolic cost grows like l_max^3 N^2 when the obliquity is on: the corner beyond l_max^3 N^2 = 22000 ((7, N >= 10), (6, N >= 12), (5, N >= 14), (4, 20))
+    # is run with the obliquity off only (cheap); every l_max and every truncation level still occurs with the obliquity on
+    return [c for c in out if (not c[2]) or c[0] ** 3 * c[1] ** 2 <= 22000]
 
 
 def _one_config_clean(cfg):
@@ -338,7 +340,7 @@ def build(tier="quick", seed=0):
     nonneg_ranges(b, tier)
     b.assume("sign / abs of a tidal mode are uninterpreted with abs(x) = sign(x) x, sign(0) = abs(0) = 0, abs(-x) = abs(x)")
     b.assume("-Im k_l enters as an uninterpreted function of (l, complex compliance); the compliance as an uninterpreted function of the frequency value (what compliance_dict_helper computes per unique frequency)")
-    b.assume("table values E_lpq, F_lmp are opaque symbols over the real tables' key sets (their values are C08 / C09); quick tier runs a covering subset of (l_max, truncation, obliquity, sync, CPL) configurations, thorough runs all")
+    b.assume("table values E_lpq, F_lmp are opaque symbols over the real tables' key sets (their values are C08 / C09); quick tier runs a covering subset of (l_max, truncation, obliquity, sync, CPL) configurations; thorough runs all of them with the obliquity off and, with the obliquity on, all with l_max^3 N^2 <= 22000 (every l_max and every truncation level occurs)")
     b.assume("effective_q bookkeeping (division inside try/except) is havocked: it does not feed any output named in the property")
     return b
 
